@@ -475,8 +475,10 @@ def _increments(n, seed=1):
             data[k, 1:4] = 0.0
         if k % 5 == 3:
             data[k, 4:7] = 0.0
-    return pd.DataFrame(data, index=pd.Index(t, name='time'),
-                        columns=['dt', 'theta_x', 'theta_y', 'theta_z', 'dv_x', 'dv_y', 'dv_z'])
+    df = pd.DataFrame(data, index=pd.Index(t, name='time'),
+                      columns=['dt', 'theta_x', 'theta_y', 'theta_z', 'dv_x', 'dv_y', 'dv_z'])
+    # an increments table is identified by its column NAMES: the replays use another column order
+    return df[['dv_y', 'theta_z', 'dt', 'theta_x', 'dv_x', 'dv_z', 'theta_y']]
 
 
 def _pva(k, t, same=None):
